@@ -26,6 +26,8 @@ package resources
 //@ property C05
 //@ requires s.current != nil && s.metadata != nil && s.Logger != nil
 //@ assert at call RetryNotify#0: fresh(clonedStatus) && clonedStatus != s.current && inmap(clonedStatus.Namespaces, namespace) && inmap(clonedStatus.Namespaces[namespace].Shards, shard) && clonedStatus.Namespaces[namespace].Shards[shard].Term == shardMetadata.Term
+//@ assume at call RetryNotify#0: result == nil ==> s.current == clonedStatus && inmap(clonedStatus.Namespaces, namespace) && inmap(clonedStatus.Namespaces[namespace].Shards, shard) && clonedStatus.Namespaces[namespace].Shards[shard].Term == shardMetadata.Term because "RetryNotify returns nil only after its operation returned nil; the operation (UpdateShardMetadata$1, verified) publishes the clone just stored and neither it nor the notify callback writes to the clone"
+//@ ensures old(inmap(s.current.Namespaces, namespace)) ==> inmap(s.current.Namespaces, namespace) && inmap(s.current.Namespaces[namespace].Shards, shard) && s.current.Namespaces[namespace].Shards[shard].Term == shardMetadata.Term
 //@ modifies *
 
 // the store attempt run by the retry loop
@@ -35,3 +37,23 @@ package resources
 //@ assert at call Store#0: cs == clonedStatus
 //@ ensures result == nil ==> s.current == clonedStatus
 //@ modifies s.current, s.currentVersionID
+
+// the retry notification: logs through the embedded logger
+//@ func status.UpdateShardMetadata$2
+//@ property C05
+//@ requires s != nil && s.Logger != nil
+//@ modifies nothing
+
+// A status resource is usable as constructed: in particular its embedded logger is
+// set, which every retry path of the Update/Delete operations logs through.
+//
+//@ func NewStatusResource
+//@ property C05
+//@ requires meta != nil
+//@ ensures result != nil && typeIs(result, *status) && as(result, *status).Logger != nil
+//@ modifies *
+
+//@ func status.Load
+//@ trusted
+//@ modifies s.current, s.currentVersionID
+//@ note trusted: loads the status from the metadata store on first use (retry loop over an external store)
